@@ -126,6 +126,8 @@ type Sched struct {
 	panicStack string
 	envHash   uint64
 	idleOK    map[*Thread]bool
+	delayMode bool // every non-default scheduling alternative costs one deviation (delay bounding)
+	frozen    bool // setup/teardown phase: default choice everywhere, nothing recorded, nothing explored
 }
 
 // S is the scheduler of the execution in progress (one at a time per process).
@@ -438,18 +440,44 @@ func (s *Sched) pickNext(from *Thread) {
 		return
 	}
 	alts := s.alternatives(from)
-	if len(alts) == 0 {
-		blocked := false
-		for _, t := range s.threads {
-			if t.kind != opDone && !s.idleOK[t] && t.kind != opTimer {
-				blocked = true
+	for len(alts) == 0 {
+		// nothing can run: let virtual time pass to the next armed timer, if any (discrete-event step)
+		var next *Timer
+		for _, tm := range s.timers {
+			if tm.active && (next == nil || tm.at < next.at) {
+				next = tm
 			}
 		}
-		if blocked {
+		if next == nil {
+			break
+		}
+		s.advance(next.at - s.clock)
+		alts = s.alternatives(from)
+	}
+	if len(alts) == 0 {
+		done := true
+		for _, t := range s.threads {
+			if t.kind != opDone {
+				done = false
+			}
+		}
+		if !done {
+			// the harness thread itself is blocked (it would otherwise be runnable or waiting for
+			// quiescence): some client operation can never complete
 			s.Deadlock = true
 			s.DeadlockInfo = s.describe()
 		}
 		s.finish()
+		return
+	}
+	if s.frozen {
+		s.steps++
+		if s.steps > s.maxSteps*4 {
+			s.Truncated = true
+			s.finish()
+			return
+		}
+		s.dispatch(alts[0])
 		return
 	}
 	s.steps++
@@ -504,6 +532,8 @@ func (s *Sched) pickNext(from *Thread) {
 		switch {
 		case a.timer:
 			costs[k] = KTimer
+		case s.delayMode && k > 0:
+			costs[k] = KPreempt
 		case curEnabled && a.t != from && a.partner != from:
 			costs[k] = KPreempt
 		default:
@@ -514,11 +544,15 @@ func (s *Sched) pickNext(from *Thread) {
 	if costs[0] >= 0 {
 		costs[0] = -1
 	}
-	a := alts[idx]
 	if c := costs[idx]; c >= 0 {
 		s.cost[c]++
 	}
 	s.Points = append(s.Points, Point{Kind: -1, NAlt: len(alts), Chosen: idx, AltCost: costs})
+	s.dispatch(alts[idx])
+}
+
+// dispatch performs the logical effect of the chosen alternative and hands the token over.
+func (s *Sched) dispatch(a alt) {
 	t := a.t
 	t.h = mix(t.h, 100+uint64(t.kind))
 	switch t.kind {
@@ -562,7 +596,7 @@ func (s *Sched) pickNext(from *Thread) {
 			}
 		}
 	}
-	if s.keepTrace {
+	if s.keepTrace && !s.frozen {
 		s.Trace = append(s.Trace, fmt.Sprintf("%d:%s:%s/%d", t.id, t.name, opNames[t.kind], a.caseIdx))
 	}
 	if a.partner != nil {
@@ -609,6 +643,9 @@ func (s *Sched) choose(kind int, n int, label string) int {
 	}
 	s.mu.Lock()
 	defer s.mu.Unlock()
+	if s.frozen {
+		return 0
+	}
 	t := s.cur
 	i := len(s.Points)
 	idx := 0
@@ -674,6 +711,15 @@ func Stop() {
 	}
 	s.mu.Unlock()
 	runtime.Goexit()
+}
+
+// Freeze(true) starts a setup/teardown phase: the scheduler takes the default alternative at every
+// point and records nothing, so the phase is deterministic and is not explored. Freeze(false) ends it.
+func Freeze(on bool) {
+	s := S
+	s.mu.Lock()
+	s.frozen = on
+	s.mu.Unlock()
 }
 
 // Steps returns the number of scheduling steps so far.
